@@ -4,7 +4,6 @@
 package majority
 
 import (
-	"github.com/Azbesciak/RealDecisionMaker/lib/model"
 	"github.com/Azbesciak/RealDecisionMaker/lib/utils"
 	vh "github.com/Azbesciak/RealDecisionMaker/lib/zz_vh"
 	rt "github.com/Azbesciak/RealDecisionMaker/lib/zz_verifrt"
@@ -14,138 +13,6 @@ import (
 //verif:bounds C11 HC11_shuffle: seeded-random search order (every draw symbolic), A<=3 (quick) / A<=4 (thorough), K=1..2; only the order-independent clauses are asserted
 //verif:outside C11: A and K beyond the bounds; the value reported for the undefeated alternative (not part of the statement); rounding of score sums (REAL mode)
 //verif:assume C11: scores are sums over the reals; ties are |s1-s2| <= 1e-6 and |v1-v2| <= 1e-6 exactly as in the statement
-
-var c11policies = []string{"allow", "current", "newer", "random"}
-
-func c11majority() *Majority {
-	return NewMajority(rt.Generators, []DrawResolver{&DrawAllowedResolver{}, &CurrentIsWinnerDrawResolver{}, &NewerIsWinnerResolver{}, &RandomWinnerResolver{}})
-}
-
-// reference scoring: total weight of the criteria on which the first is strictly better (eps 1e-6)
-func c11score(crit model.Criteria, w model.Weights, x, y *model.AlternativeWithCriteria) float64 {
-	s := 0.0
-	for i := range crit {
-		c := crit[i]
-		vx, vy := x.Criteria[c.Id], y.Criteria[c.Id]
-		if c.Type == model.Cost {
-			vx, vy = -vx, -vy
-		}
-		if vx-vy > 1e-6 {
-			s += w[c.Id]
-		}
-	}
-	return s
-}
-
-type c11info struct {
-	id, opp      string
-	own, oppScore float64
-	group        int
-}
-
-type c11setup struct {
-	known  []model.AlternativeWithCriteria
-	chose  []string
-	crit   model.Criteria
-	params MajorityHeuristicParams
-	order  []string // expected search order (fixed order only)
-	expectedIds []string
-}
-
-func c11build(maxA, maxK int, shuffle bool) *c11setup {
-	A := rt.IntRange("A", 2, maxA)
-	K := maxK
-	if rt.Thorough() {
-		K = rt.IntRange("K", 1, maxK)
-	}
-	// the first criterion is gain or cost (a harness choice); the others alternate cost/gain
-	crit := vh.Criteria(1, "")
-	for i := 1; i < K; i++ {
-		t := model.Cost
-		if i%2 == 0 {
-			t = model.Gain
-		}
-		crit = append(crit, model.Criterion{Id: vh.CritIds[i], Type: t})
-	}
-	known := vh.Alternatives("", vh.AltIds[:A], crit)
-	cc := rt.OneOf("currentChoice", "none", "first-considered", "last-considered", "not-considered")
-	considered := A
-	if cc == "not-considered" || (rt.Thorough() && rt.Bool("leave-last-unconsidered")) {
-		considered = A - 1
-	}
-	// listed order differs from known order: considered ids are taken back to front
-	chose := []string{}
-	for i := considered - 1; i >= 0; i-- {
-		chose = append(chose, vh.AltIds[i])
-	}
-	cur := ""
-	switch cc {
-	case "first-considered":
-		cur = chose[0]
-	case "last-considered":
-		cur = chose[len(chose)-1]
-	case "not-considered":
-		rt.Assume(considered < A)
-		cur = vh.AltIds[A-1]
-	}
-	s := &c11setup{known: known, chose: chose, crit: crit}
-	s.params = MajorityHeuristicParams{Weights: vh.Weights("w.", crit, 0, 4), CurrentChoice: cur, RandomSeed: 7,
-		RandomAlternativesOrdering: shuffle, DrawResolution: rt.OneOf("policy", c11policies...)}
-	if cur != "" {
-		s.order = append(s.order, cur)
-	}
-	for _, id := range chose {
-		if id != cur {
-			s.order = append(s.order, id)
-		}
-	}
-	s.expectedIds = append([]string{}, chose...)
-	if cur != "" && !vh.Contains(chose, cur) {
-		s.expectedIds = append(s.expectedIds, cur)
-	}
-	return s
-}
-
-func c11alt(known []model.AlternativeWithCriteria, id string) *model.AlternativeWithCriteria {
-	for i := range known {
-		if known[i].Id == id {
-			return &known[i]
-		}
-	}
-	panic("unknown alternative " + id)
-}
-
-// c11entryClauses asserts the per-entry clauses of the statement that do not depend on the search order.
-func c11entryClauses(tag string, s *c11setup, r *model.AlternativesRanking) {
-	undefeated := 0
-	for i := range *r {
-		e := (*r)[i]
-		ev := e.Evaluation.(MajorityEvaluation)
-		if ev.ComparedWith == "" {
-			undefeated++
-			rt.Assert(tag+".undefeated-first", i == 0 || vh.Contains((*r)[0].BetterThanOrSameAs, e.Alternative.Id) && vh.Contains(e.BetterThanOrSameAs, (*r)[0].Alternative.Id))
-			continue
-		}
-		oi := vh.IndexOf(r, ev.ComparedWith)
-		rt.Assert(tag+".opponent-in-result", oi >= 0)
-		if oi < 0 {
-			continue
-		}
-		me, opp := c11alt(s.known, e.Alternative.Id), c11alt(s.known, ev.ComparedWith)
-		rt.Assert(tag+".own-score", ev.Value == c11score(s.crit, s.params.Weights, me, opp))
-		rt.Assert(tag+".opponent-score", ev.ComparedAlternativeValue == c11score(s.crit, s.params.Weights, opp, me))
-		rt.Assert(tag+".not-higher-than-opponent", ev.Value <= ev.ComparedAlternativeValue+1e-6)
-		sameGroup := vh.Contains(e.BetterThanOrSameAs, ev.ComparedWith) && vh.Contains((*r)[oi].BetterThanOrSameAs, e.Alternative.Id)
-		if s.params.DrawResolution == "allow" {
-			rt.Assert(tag+".below-or-tied-with-opponent", oi < i || sameGroup)
-		} else {
-			rt.Assert(tag+".below-opponent", oi < i && !sameGroup)
-		}
-		// the opponent is reachable from... the opponent ranks at least as high: this entry is reachable from it
-		rt.Assert(tag+".reachable-from-opponent", vh.Contains(vh.Reachable(r, ev.ComparedWith), e.Alternative.Id))
-	}
-	rt.Assert(tag+".one-undefeated", undefeated == 1)
-}
 
 //verif:harness HC11_tournament mode=REAL reach=draw,win,loss,group3,cc-considered,cc-notconsidered
 func HC11_tournament() {
